@@ -79,7 +79,7 @@ def _apply(m, edit):
 
 import re  # noqa: E402
 
-_DEFAULT = re.compile(r'^(THETA_\d+|OMEGA_\d+_\d+|SIGMA_\d+_\d+)$')
+_DEFAULT = re.compile(r'^(THETA_\d+|OMEGA_\d+_\d+|SIGMA_\d+_\d+)_*$')
 
 
 def _pvec(m):
@@ -104,23 +104,24 @@ def _same_name(x, y):
 
 
 def _same_params(a, b):
-    """per class: names present on both sides correspond (any order: the order of parameters inside a class is not
-    semantic, e.g. a new covariance is appended in memory and written row-wise); names present on one side only must
-    be default (positional) names on both sides and correspond in order"""
+    """per class: parameters with a proper name correspond by name (any order: the order inside a class is not
+    semantic, e.g. a new covariance is appended in memory and written row-wise); parameters with a default name
+    (THETA_n, OMEGA_i_j, SIGMA_i_j: positions, not names) are compared as multisets of values"""
     def eq(x, y):
         return x[4] == y[4] and all(_close(u, v) for u, v in zip(x[1:4], y[1:4]))
     for c in ('theta', 'omega', 'sigma'):
-        if len(a[c]) != len(b[c]) or len({x[0] for x in a[c]}) != len(a[c]):
+        if len(a[c]) != len(b[c]):
             return False
-        da, db = {x[0]: x for x in a[c]}, {y[0]: y for y in b[c]}
-        for n in da:
-            if n in db and not eq(da[n], db[n]):
-                return False
-        ra = [x for x in a[c] if x[0] not in db]
-        rb = [y for y in b[c] if y[0] not in da]
-        for x, y in zip(ra, rb):
-            if not (_DEFAULT.match(x[0]) and _DEFAULT.match(y[0])) or not eq(x, y):
-                return False
+        na = {x[0]: x for x in a[c] if not _DEFAULT.match(x[0])}
+        nb = {y[0]: y for y in b[c] if not _DEFAULT.match(y[0])}
+        if set(na) != set(nb) or any(not eq(na[n], nb[n]) for n in na):
+            return False
+        # default-named ones: the same values as multisets (which eta each belongs to is compared through the random
+        # variables, _same_rvs: the distributions in eta order with their (co)variance values)
+        da = sorted(x[1:] for x in a[c] if _DEFAULT.match(x[0]))
+        db = sorted(y[1:] for y in b[c] if _DEFAULT.match(y[0]))
+        if len(da) != len(db) or any(not eq((None,) + x, (None,) + y) for x, y in zip(da, db)):
+            return False
     return True
 
 
@@ -197,3 +198,90 @@ def model_params__twin(i5: int, i6: int, i7: int, i8: int) -> bool:
     idx = [B._pick(x, 0, n) for x, n in zip((i5, i6, i7, i8), NS)]
     with _NoTracing():
         return _body(idx, EDIT) is not True
+
+
+# ---------------------------------------------------------------------------------------------------------------
+# four etas over several multi-value records: edits that remove / join all etas of ONE record
+
+PK4 = ('$SUBROUTINE ADVAN1 TRANS2\n$PK\nCL = THETA(1)*EXP(ETA(1))\nV = THETA(2)*EXP(ETA(2))\nS1 = V*EXP(ETA(3))\n'
+       'ZZ = EXP(ETA(4))\n')
+OMEGA4 = ['$OMEGA 0.1 0.2 ; first two\n$OMEGA 0.3 0.4 ; last two\n',
+          '$OMEGA 0.1 0.2\n$OMEGA 0.3\n$OMEGA 0.4\n',
+          '$OMEGA 0.1\n$OMEGA 0.2 0.3 0.4\n',
+          '$OMEGA 0.1 ; IIV_A\n 0.2 ; IIV_B\n$OMEGA 0.3 ; IIV_C\n 0.4 ; IIV_D\n',
+          '$OMEGA 0.1 0.2 0.3 0.4\n',
+          '$OMEGA BLOCK(2)\n0.1\n0.01 0.2\n$OMEGA 0.3 0.4\n']
+EDITS4 = ['none', 'remove_12', 'remove_34', 'remove_1', 'remove_4', 'remove_23', 'join_12', 'join_34', 'join_23', 'join_all',
+          'remove_12_then_init']
+NO4, NE4 = len(OMEGA4), len(EDITS4)
+
+
+def _apply4(m, e):
+    etas = m.random_variables.etas.names
+    pick = lambda ks: [etas[k - 1] for k in ks]      # noqa: E731
+    if e == 'none':
+        return m
+    if e.startswith('remove_') and e != 'remove_12_then_init':
+        return pm.remove_iiv(m, pick([int(c) for c in e.split('_')[1]]))
+    if e == 'join_all':
+        return pm.create_joint_distribution(m, individual_estimates=None)
+    if e.startswith('join_'):
+        return pm.create_joint_distribution(m, pick([int(c) for c in e.split('_')[1]]), individual_estimates=None)
+    m1 = pm.remove_iiv(m, pick([1, 2])).update_source()
+    return pm.set_initial_estimates(m1, {m1.random_variables.etas.parameter_names[-1]: 0.45})
+
+
+REGION4 = os.environ.get('VH_REGION', 'main')
+
+
+def _body4(lay, edit):
+    # known finding (C04-omega-insert-into-diag): a joint block created from the middle values of one multi-value
+    # diagonal record; kept apart so that the main region is checked strictly
+    region = 'join_middle_of_diag' if (EDITS4[edit] == 'join_23' and OMEGA4[lay] == '$OMEGA 0.1 0.2 0.3 0.4\n') else 'main'
+    if region != REGION4:
+        return None
+    text = ''.join(B.SLOTS[i][0] for i in range(4)) + PK4 + B.SLOTS[5][0] + B.SLOTS[6][0] + OMEGA4[lay] + \
+        B.SLOTS[8][0] + B.SLOTS[9][0]
+    m = Model.parse_model_from_string(text)
+    try:
+        m2 = _apply4(m, EDITS4[edit])
+    except (ValueError, NotImplementedError):
+        return None
+    m2 = m2.update_source()
+    code = m2.code
+    try:
+        back = Model.parse_model_from_string(code)
+    except Exception as e:            # noqa
+        raise AssertionError(f'{EDITS4[edit]} on {OMEGA4[lay]!r}: generated code cannot be read again '
+                             f'({type(e).__name__}: {str(e)[:120]}): {code!r}')
+    if not _same_params(_pvec(back), _pvec(m2)):
+        raise AssertionError(f'{EDITS4[edit]} on {OMEGA4[lay]!r}: re-read parameters {_pvec(back)} != in-memory '
+                             f'{_pvec(m2)}; code {code!r}')
+    if not _same_rvs(_rvs(back), _rvs(m2)):
+        raise AssertionError(f'{EDITS4[edit]} on {OMEGA4[lay]!r}: re-read random variables {_rvs(back)} != in-memory '
+                             f'{_rvs(m2)}; code {code!r}')
+    # comments of values that stay must stay
+    for c in ('IIV_A', 'IIV_B', 'IIV_C', 'IIV_D'):
+        if c in OMEGA4[lay] and c in m2.parameters.names and c not in code:
+            raise AssertionError(f'{EDITS4[edit]} on {OMEGA4[lay]!r}: name comment {c} lost: {code!r}')
+    return True
+
+
+def model_params4(lay: int, edit: int) -> bool:
+    """
+    pre: 0 <= lay < NO4 and 0 <= edit < NE4
+    post: _ in (True, None)
+    """
+    codes = [B._pick(lay, 0, NO4), B._pick(edit, 0, NE4)]
+    with _NoTracing():
+        return _body4(*codes)
+
+
+def model_params4__twin(lay: int, edit: int) -> bool:
+    """
+    pre: 0 <= lay < NO4 and 0 <= edit < NE4
+    post: _ == True
+    """
+    codes = [B._pick(lay, 0, NO4), B._pick(edit, 0, NE4)]
+    with _NoTracing():
+        return _body4(*codes) is not True
